@@ -14,15 +14,15 @@ variable {A K : Type}
 
 mutual
 /-- every atom of the tree satisfies `pa`, every node label `pk` -/
-def Rose.Forall (pa : A → Prop) (pk : K → Prop) : Rose A K → Prop
+def Rose.Forall (pa : A → Prop) (pk : K → List (Rose A K) → Prop) : Rose A K → Prop
   | .atom a => pa a
-  | .node k kids => pk k ∧ Rose.ForallList pa pk kids
-def Rose.ForallList (pa : A → Prop) (pk : K → Prop) : List (Rose A K) → Prop
+  | .node k kids => pk k kids ∧ Rose.ForallList pa pk kids
+def Rose.ForallList (pa : A → Prop) (pk : K → List (Rose A K) → Prop) : List (Rose A K) → Prop
   | [] => True
   | t :: ts => Rose.Forall pa pk t ∧ Rose.ForallList pa pk ts
 end
 
-theorem Rose.forallList_iff (pa : A → Prop) (pk : K → Prop) (l : List (Rose A K)) :
+theorem Rose.forallList_iff (pa : A → Prop) (pk : K → List (Rose A K) → Prop) (l : List (Rose A K)) :
     Rose.ForallList pa pk l ↔ ∀ t ∈ l, Rose.Forall pa pk t := by
   induction l with
   | nil => simp [Rose.ForallList]
@@ -94,10 +94,10 @@ theorem lookup_zip_mem {α : Type} (names : List String) (kids : List α) (n : S
 def TablesDistinct : Prop := ∀ cls ps, paramsOf cls = some ps → Distinct ps
 
 /-- every rule in the object is a well-formed `if … then …` text -/
-def RulesOK (v : Val) : Prop := Rose.Forall (fun a => ∀ r, a = Atom.rule r → RuleOK r) (fun _ => True) v
+def RulesOK (v : Val) : Prop := Rose.Forall (fun a => ∀ r, a = Atom.rule r → RuleOK r) (fun _ _ => True) v
 
 /-- `construction_arguments` did not raise anywhere in the tree -/
-def NoInvalid (s : Src) : Prop := Rose.Forall (fun a => a ≠ SAtom.invalid) (fun _ => True) s
+def NoInvalid (s : Src) : Prop := Rose.Forall (fun a => a ≠ SAtom.invalid) (fun _ _ => True) s
 
 theorem eval_atom (env : Env) (a : Atom) (hr : ∀ r, a = Atom.rule r → RuleOK r) (hv : litSrc env a ≠ .invalid) :
     evalCall (.atom (litSrc env a)) = some (view env (.atom a)) := by
